@@ -314,7 +314,7 @@ func onlyRaceFailures(out string) bool {
 		case strings.HasPrefix(t, "--- ") || strings.HasPrefix(t, "=== ") || t == "FAIL" || t == "PASS" || t == "" || strings.HasPrefix(t, "C02:"):
 			inFail = false
 		case inFail && strings.HasPrefix(ln, " "):
-			if !strings.Contains(t, "race detected during execution of test") {
+			if !strings.Contains(t, "race detected during execution of test") && !strings.Contains(t, "[rapid] OK, passed") {
 				return false
 			}
 		}
